@@ -18,19 +18,20 @@ def dimValueExpr (m : SModel) (d : Dim) : Expr :=
   | true, some g => .dateTrunc g e
   | _, _ => e
 
-/-- the value of a requested reference `model.dim[__gran]`: with a granularity, the start of the
-enclosing period of the dimension's (untruncated) value -/
-def dimRefExpr (m : SModel) (ref : String) : Expr :=
-  let (base, gran) := parseDimRef ref
-  match split2 base with
+/-- the value of a requested reference `model.dim[__gran]` (already split into its parts): with a
+granularity, the start of the enclosing period of the dimension's (untruncated) value -/
+def dimExprOf (m : SModel) (parsed : String × Option String) : Expr :=
+  match split2 parsed.1 with
   | some (_, dn) =>
     (match m.dim? dn with
      | some d =>
-       (match gran.bind Gran.ofStr? with
+       (match parsed.2.bind Gran.ofStr? with
         | some g => .dateTrunc g (d.sqlExpr.mapCols (replacePlaceholder m))
         | none => dimValueExpr m d)
      | none => .lit .null)
   | none => .lit .null
+
+def dimRefExpr (m : SModel) (ref : String) : Expr := dimExprOf m (parseDimRef ref)
 
 def Expr.subst (σ : String → Expr) : Expr → Expr
   | .col n => σ n
